@@ -38,6 +38,10 @@ type Field struct {
 	Args  []Arg
 	Dirs  []Dir
 	Sub   *SelSet // nil for leaves
+	// Twin marks a selection that is excluded by construction and could not be
+	// merged with its same-key sibling (GenOpts.PConflictExcluded); it is never
+	// duplicated or re-annotated.
+	Twin bool
 }
 
 func (f *Field) Key() string {
@@ -82,6 +86,9 @@ type Doc struct {
 	// Foreign counts spreads, inside an object selection set, of a fragment
 	// typed on another object type (GenOpts.PForeign).
 	Foreign int
+	// ConflictExcluded / ClonedDirs: see GenOpts.PConflictExcluded / PCloneDirs.
+	ConflictExcluded int
+	ClonedDirs       int
 }
 
 func litText(v interface{}) string {
